@@ -49,7 +49,8 @@ def invalid_objects(t: pydsdl.CompositeType) -> typing.List[typing.Tuple[str, ty
     base = space.values_of(top, False)[0]
     if isinstance(top, pydsdl.UnionType):
         out.append(("tag_n", [str(len(top.fields))]))
-        out.append(("tag_255", ["255"]))
+        if len(top.fields) <= 255:
+            out.append(("tag_255", ["255"]))
         return out
     for f in top.fields:
         if isinstance(f.data_type, pydsdl.VariableLengthArrayType):
